@@ -1,5 +1,6 @@
 import AtreeProofs.Codec.RoundTrip
 import AtreeProofs.Codec.EncLemmasC
+import AtreeProofs.Codec.SlabAll
 import AtreeProofs.ArrayInv
 /-
   C06 — Reported slab sizes equal the bytes actually written.
@@ -9,14 +10,20 @@ import AtreeProofs.ArrayInv
   array index slabs, large-value slabs, with the harness's elements (byte strings of every CBOR head
   width, the three gap sizes, slab references) and type infos.  For these kinds the only deviation
   between encoded length and reported size is the omitted 16-byte sibling link of a non-root data
-  slab with undefined `next`, plus the root's extra-data section.  `SlabOK` is `False` for the slab
-  kinds added later (`adata`, `mdata`, `mindex`, `storableG`), which have their own theorems.
+  slab with undefined `next`, plus the root's extra-data section.  `SlabOK` (the hypotheses of these
+  three kinds, used by the E2E proofs) is `False` for the slab kinds added later (`adata`, `mdata`,
+  `mindex`, `storableG`); the general statements `enc_len` / `decoded_size_eq` are phrased with
+  `SlabOKG` (Codec/SlabAll.lean), which per kind is the hypothesis of the kind-specific
+  theorem (array / map data slabs with general elements: with the exact nesting clause
+  `Slab.vdepth ≤ maxNestedLevels`), and hold for all SEVEN kinds (`enc_len_flat` / `decoded_size_eq_flat` are the former,
+  three-kind statements; `SlabOK s → SlabOKG s`).
 
   The byte-level model now also covers map data / index / collision-group slabs, inlined arrays and
   maps, wrappers, the shared inlined-extra-data section and compact maps; the model's sizes of these
   kinds are functions of the content (`Stor.size`, `MEls.size`, `MapData.size`, …) and the trace
   replayer checks on every `ENC` line that every size the implementation keeps in a header field
-  equals the computed one and that the length law holds (`≤` when compact maps hoist their keys).
+  equals the computed one and that the EXACT length law holds (`Slab.hoisted`, Props/C06Exact.lean:
+  written + omitted sibling link + bytes hoisted by compact maps = reported + extra-data sections).
 -/
 namespace Atree.C06
 open Atree Atree.Codec Atree.Gen
@@ -48,9 +55,9 @@ theorem enc_len_storable (e : Elem) (hv : validElem e) :
     (encodeStorableSlab e).length = versionAndFlagSize + e.size :=
   Codec.enc_len_storable e hv
 
-/-- All kinds at once, in the form of the oracle:
+/-- The three kinds of the first part at once (`SlabOK`), in the form of the first oracle:
     `len(EncodeSlab(s)) + omittedNext(s) = s.ByteSize() + extraDataLen(s)`. -/
-theorem enc_len (s : Slab) (ok : SlabOK s)
+theorem enc_len_flat (s : Slab) (ok : SlabOK s)
     (hroot : ∀ ty d, s = .data ty d → d.root = true → d.next = SlabID.undef) :
     (encodeSlab s).length +
         (match s with
@@ -74,11 +81,26 @@ theorem enc_len (s : Slab) (ok : SlabOK s)
   | mindex _ => exact ok.elim
   | storableG _ _ => exact ok.elim
 
-/-- A slab decoded from its register reports the same size as the slab that produced the register
-    — including the non-root data slab whose sibling link was omitted from the register. -/
-theorem decoded_size_eq (s : Slab) (ok : SlabOK s) (n : Nat) :
+/-- ALL SEVEN slab kinds at once, in the form of the oracle (and of the replayer's check on every
+    `ENC` line): encoded length, plus the 16 bytes of an omitted sibling link, plus the bytes that
+    compact-encoded inlined maps hoist into the shared section, equals `ByteSize()` plus the root's
+    extra-data section plus the shared inlined-extra-data section.  `SlabOKG`: per kind the hypotheses
+    of the kind-specific theorem (never `False`); `rootNoSibling`: a root has no sibling. -/
+theorem enc_len (s : Slab) (ok : SlabOKG s) (hroot : s.rootNoSibling) :
+    (encodeSlab s).length + s.omittedNext + s.hoisted = s.byteSize + s.extraDataLen :=
+  enc_len_slab_all s ok hroot
+
+/-- The three kinds of the first part: a slab decoded from its register reports the same size. -/
+theorem decoded_size_eq_flat (s : Slab) (ok : SlabOK s) (n : Nat) :
     ∃ s' k, decodeSlab s.id (encodeSlab s) n = .ok s' k ∧ s'.byteSize = s.byteSize :=
   ⟨s, _, decodeSlab_encodeSlab s ok n, rfl⟩
+
+/-- ALL SEVEN kinds: a slab decoded from its register reports the same size as the slab that produced
+    the register — including the non-root data slab whose sibling link was omitted from the register
+    and the slab whose compact children come back in their decoded form. -/
+theorem decoded_size_eq (s : Slab) (ok : SlabOKG s) (n : Nat) :
+    ∃ s' k, decodeSlab s.id (encodeSlab s) n = .ok s' k ∧ s'.byteSize = s.byteSize :=
+  ⟨normSlab s, _, decodeSlab_encodeSlab_all s ok n, byteSize_normSlab s ok⟩
 
 theorem length_le_sumSizes (l : List Elem) (h : ∀ e ∈ l, 1 ≤ e.size) : l.length ≤ sumSizes l := by
   induction l with
